@@ -47,6 +47,9 @@ def run(ctx) -> None:
     ctx.rule("R6", "prerequisite: the real run writes exactly the record the diff was computed from - lines joined with the file's separator, to the configured path itself (C04/R1, R2, R4)")
     from sa.report import run_prerequisite
     run_prerequisite(ctx, "C04", ("R1", "R2", "R4"), "R6")
+    ctx.rule("R8", "--dry is a flag that is off unless given")
+    shapes.cli_option_rule(ctx, "R8", ["--dry"])
+    ctx.rule("R7", "a hook script that does not exist is rejected before the dry/real split (option type click.Path(exists=True); configured hooks checked by _parse_config)")
     ctx.rule("R5", "up to the point where the diff is printed a dry run does what a real run does: no statement there mentions `dry` or runs depending on it")
     ctx.rule("R4", "the printed diff is the computed diff: between difflib and click.echo the text is only joined / split at line breaks and trimmed of trailing newlines")
 
@@ -363,3 +366,23 @@ def run(ctx) -> None:
                   "cli.update: a step that determines the new version or the diff behaves differently under --dry",
                   f"`{n.text()[:80]}` (L{n.lineno}) " + ("uses the value of `dry`" if mentions else f"runs when {r.project(['dry']).to_dnf()}") +
                   ": the diff printed by the dry run is not the change a real run with the same arguments makes", loc=upd.loc(n.ast))
+
+    # ---------------------------------------------------------------- R7
+    # a dry run never starts the hooks; if a missing hook script were accepted, --dry would exit 0 and the real run fail
+    n_hook_opts = 0
+    for dec in upd.node.decorator_list:
+        if isinstance(dec, ast.Call) and unparse(dec.func).endswith("option") and dec.args and const_str(dec.args[0]) in ("--pre-commit-hook", "--post-commit-hook"):
+            n_hook_opts += 1
+            ty = shapes.kwargs_of(dec).get("type")
+            ex_kw = shapes.kwargs_of(ty).get("exists") if isinstance(ty, ast.Call) and unparse(ty.func).endswith("Path") else None
+            ok = isinstance(ex_kw, ast.Constant) and ex_kw.value is True
+            ctx.check("R7", ok, f"update: option {const_str(dec.args[0])} must name an existing file (click.Path(exists=True))",
+                      f"cli.update: {const_str(dec.args[0])} accepts a path that does not exist",
+                      f"`{unparse(ty) if ty is not None else None}`: `update --dry {const_str(dec.args[0])} ./missing.sh` exits 0, the real run with the same arguments rewrites the files and then fails to "
+                      f"start the hook", loc=upd.loc(dec), witness={"args": f"--dry {const_str(dec.args[0])} ./no-such-hook.sh"})
+    ctx.floor("R7", "hook options of update", n_hook_opts, 2)
+    pcfg_fn = prog.function("config._parse_config")
+    for hk in ("pre_commit_hook", "post_commit_hook"):
+        tests = [n for n in ast.walk(pcfg_fn.node) if isinstance(n, ast.If) and hk in unparse(n.test) and ".exists()" in unparse(n.test) and any(isinstance(x, ast.Raise) for x in ast.walk(n))]
+        ctx.check("R7", len(tests) >= 1, f"_parse_config: a configured {hk} that does not exist is rejected", f"config._parse_config: a configured {hk} that does not exist is accepted",
+                  "no `if <hook> and not Path(<hook>).exists(): raise` test found", loc=pcfg_fn.loc())
